@@ -39,6 +39,9 @@ CLAIMED = {
     "C22": ("Coq proof (InvertibleSet evaluation = set algebra with complement within the Einsum's tensors, for every expression tree; Other-key dictionaries disjoint and covering) + differential correspondence",
             "C22_algebra, C22_closed, C22_named_sets, C22_other_partition for all expressions/workloads; the real eval_set_expression / eval_set_expression_dict / tensors.keep evaluation are compared with the model and a set-algebra oracle on random workloads and trees, two renderings per tree.",
             "Coq kernel; Python eval and operator precedence trusted (both renderings compared); rank-variable spaces outside the model"),
+    "C29": ("Coq proof (merged rename list = priority lookup local > per-Einsum top-level > default; expected_count mismatch rejected) + differential correspondence",
+            "C29_resolve / C29_value / C29_expected_count for all rename tables; C29_unrepaired_refuted records the defect; the real Spec evaluation is run on random rename tables in all three places (default entry first or last) and compared with the model and oracle.",
+            "Coq kernel; tensor renames with named-set sources only; rank-variable renames and rename-to-rename references outside the model"),
 }
 
 PENDING_REASON = "check not built yet in this round (planned, see DESIGN.md section 6); not claimed until its proof and correspondence exist"
